@@ -56,6 +56,11 @@ def physical(res, spec, obs, phases, vtol=1e-6):
                     res.v(("C03.invert", k), "%s Vout %r" % (name, vout))
             elif vout * ref < 0:
                 res.v(("C03.invert", k, *tag), "%s Vin/nominal %r Vout %r" % (name, ref, vout))
+            if k == "Rectifier" and rec["a"].get("vdrop", 0.0) != 0 and vin != 0:
+                from ..sysmodel import par
+                drop = 2 * par(rec["a"]["vdrop"], g(r, "Iout (A)"), vin)
+                if abs(vin) - drop <= 0:  # the bridge has no headroom: abs() must not turn the flipped sign into a "valid" output
+                    res.v(("C03.invert", k, "collapsed"), "%s |Vin| %r but two diode drops are %r; Vout %r" % (name, abs(vin), drop, vout))
             if abs(vout) > abs(ref) * (1 + 10 * vtol) + 1e-6:  # the row's Vin and Vout may stem from successive iterates
                 res.v(("C03.amplify", k, *tag), "%s Vin/nominal %r Vout %r" % (name, ref, vout))
 
@@ -117,6 +122,16 @@ def run_one(res, spec, vtol, itol, maxiter, tag):
 def check_case(case):
     res = Res()
     fam = case["fam"]
+    if fam == "spread":
+        from .c01 import spread_spec
+        spec = spread_spec(case["depth"], case["heavy"], case["micro"], case["pol"])
+        outs = set()
+        for vt, it in TOLS[:2]:
+            for mi in (20, 10000):
+                outs.add(run_one(res, spec, vt, it, mi, "settings"))
+        outs.add(run_one(res, spec, None, None, None, "settings"))
+        res.nontrivial = 1
+        return res
     extra = heavy_letters(case["pal"]) if fam == "over" else None
     spec = spec_from_forest(case["f"], case["pal"], case["pol"], case["srs"], extra=extra)
     if case.get("who"):
@@ -187,6 +202,10 @@ def gen_cases(tier):
         for n in ((4, 5) if tier == "quick" else (5, 6, 7)):
             for f in chains(deep, n):
                 yield dict(fam="settings", f=f, pal=pal, pol=1, srs=0.37)
+        for depth in (2, 3, 4, 5, 6):
+            for heavy in (0.5, 20.0):
+                for micro in (2e-6, 2e-5):
+                    yield dict(fam="spread", depth=depth, heavy=heavy, micro=micro, pol=1, pal=pal)
         # B overload at every position
         for n in ((1, 2, 3) if tier == "quick" else (1, 2, 3, 4)):
             for f in over.iter_forests(n):
